@@ -28,6 +28,7 @@ PUSHES = {
     'unknown': ['9zz'],
     'msg': ['4solo'],
     'ping_msg': ['2p2', '4after-ping'],
+    'ping_number': ['20.0', '2-7.50'],           # PING data that decode to numbers (one of them falsy): echoed as written
     'bin_empty': ['b', '4after-empty'],      # a binary MESSAGE with no bytes (an empty binary frame on WebSocket), then text
 }
 EXPECT_MSG = {'4t1': 't1', '4{"j":2}': {'j': 2}, 'bAAEC': b'\x00\x01\x02', '4solo': 'solo', '4after-ping': 'after-ping', 'b': b'', '4after-empty': 'after-empty'}
@@ -150,6 +151,7 @@ class Conduct(core.Scenario):
         w = self.world
         out = []
         items = []
+        self.raw_pongs = []       # PONG packets exactly as written by the client (text after the type digit)
         for r in w.server.reqs:
             if r.method == 'POST':
                 items.append((r.step, 'post', r))
@@ -165,6 +167,8 @@ class Conduct(core.Scenario):
                     out.append(('polling', None, x.body, 'garbage'))
                     continue
                 for seg in body.split('\x1e') if body else []:
+                    if seg[:1] == '3' and seg != '3probe':
+                        self.raw_pongs.append(seg[1:])
                     try:
                         d = codec.ref_decode(seg)
                         out.append(('polling', d['type'], d['data'], 'b64' if d['binary'] else 'text'))
@@ -175,6 +179,8 @@ class Conduct(core.Scenario):
                 if fk == 'binary':
                     out.append(('websocket', 4, data, 'binary'))
                 else:
+                    if isinstance(data, str) and data[:1] == '3' and data != '3probe':
+                        self.raw_pongs.append(data[1:])
                     try:
                         d = codec.ref_decode(data)
                         out.append(('websocket', d['type'], d['data'], 'text-frame-bytes' if isinstance(data, bytes) else 'text'))
@@ -204,8 +210,12 @@ class Conduct(core.Scenario):
                     pings.append(one[1:])
         pings += [''] * p.get('beat', 0)
         pongs = [(d or '') for ch, t, d, k in out if t == 3 and d != 'probe']
-        if sorted(pongs) != sorted(pings) or pongs != pings:
-            self.flag('pong_echo_wrong', 'PINGs with data %r were answered by PONGs %r' % (pings, pongs), trigger=trig)
+        # the same data, in order: compared as decoded values (a PING whose text is a JSON number comes back as that number,
+        # possibly written differently)
+        want_p = [codec.ref_decode('2' + x)['data'] for x in pings]
+        got_p = [codec.ref_decode('3' + x)['data'] for x in self.raw_pongs]
+        if len(want_p) != len(got_p) or not all(type(a) is type(b) and codec.payload_equal(a, b) for a, b in zip(got_p, want_p)):
+            self.flag('pong_echo_wrong', 'PINGs with data %r were answered by PONGs %r' % (pings, self.raw_pongs), trigger=trig)
         # ---- server messages reach the handler once, in arrival order, decoded
         want_msgs = [x[1:] for x in p.get('piggy', []) if x.startswith('4')]
         for name in p['pushes']:
